@@ -89,32 +89,37 @@ def _exec_chunk(items):
     return out
 
 
-TEMPLATE = '''Project @N@ {
+TEMPLATE = '''Project {P} {{
   k: 'v'
-}
-Enum @N@.@N@ {
-  @N@
-}
-Table @N@.@N@ as @N@ {
-  @N@ @N@ [ref: > @N@.@N@.@N@]
-  id int
-  indexes {
-    @N@
-    (@N@, id) [name: 'x']
-  }
-}
-Table u {
-  id @N@.@N@
-}
-Ref @N@: @N@.@N@ > @N@.(@N@, @N@)
-TableGroup @N@ {
-  @N@
-  @N@.@N@
-}
-Note @N@ {
+}}
+Enum {ES}.{E} {{
+  {I}
+  other
+}}
+Table {S}.{T} as {A} {{
+  {C} {ES}.{E} [ref: > {S}.{T}.{C2}]
+  {C2} {TY}
+  indexes {{
+    {C}
+    ({C2}, {C}) [name: 'x']
+  }}
+}}
+Table {U} {{
+  id {TY}
+  {C} int
+}}
+Ref {R}: {A}.{C} > {U}.({C}, id)
+Ref: {S}.{T}.({C}, {C2}) < {U}.(id, {C})
+TableGroup {G} {{
+  {A}
+  {U}
+}}
+Note {N} {{
   'x'
-}
+}}
 '''
+SLOTS = {'P': 'proj', 'ES': 'es', 'E': 'en', 'I': 'item', 'S': 'sc', 'T': 'tab', 'A': 'al', 'C': 'col', 'C2': 'col2', 'TY': 'int', 'U': 'utab',
+         'R': 'fk', 'G': 'grp', 'N': 'note1'}
 AWKWARD = ['"a.b"', '"a.b.c"', '"{"', '"}"', '"{x}"', '" "', '""', '"."', '".."', '"a b"', '"it\'s"', '"%s"', '"{0}"', '"(a)"', '"a,b"', '"`"', '"\\\\"',
            '"[x]"', '"#"', '"//"', '"/*"', '"null"', '"é"', '"🙂"', 't', 'u', 'id', 'public', 'int']
 RAW_ALPHA = ['a', ' ', '\n', "'", '"', '\\', '`', '{', '}', '%', '\t']
@@ -206,14 +211,17 @@ def main(argv: List[str]) -> int:
             lit = q1 + raw + q2
             for site in (TEXT_SITES if len(raw) <= 2 else TEXT_SITES[:4]):
                 add(site.replace('@L@', lit), 'raw literal')
-    nslots = TEMPLATE.count('@N@')
-    base = ['t'] * nslots
-    for slot in range(nslots):
+    add(TEMPLATE.format(**SLOTS), 'awkward identifier')          # the template itself is a valid document
+    for slot in SLOTS:
         for a in AWKWARD:
-            parts = TEMPLATE.split('@N@')
-            names = ['n%d' % i for i in range(nslots)]
-            names[slot] = a
-            add(''.join(p + (names[i] if i < nslots else '') for i, p in enumerate(parts)), 'awkward identifier')
+            vals = dict(SLOTS)
+            vals[slot] = a
+            add(TEMPLATE.format(**vals), 'awkward identifier')
+        for other in SLOTS:                                          # the same awkward name in two roles
+            if other < slot:
+                vals = dict(SLOTS)
+                vals[slot] = vals[other] = '""'
+                add(TEMPLATE.format(**vals), 'awkward identifier')
     for t in ['', ' ', '\n', '\n\n\n', '\t', '// only a comment', '/* block */', '/* unterminated', '﻿', '﻿\n', '﻿Table t {\n id int\n}',
               '﻿﻿Table t {\n id int\n}', 'Table t {\n id int' + '(' * 8 + '1' + ')' * 8 + '\n}', 'Table t {\n id int [default: `' + '(' * 50 + ')' * 50 + '`]\n}',
               'Table t {\n id "' + 'x' * 5000 + '"\n}', "Table t {\n id int [note: '" + "\\'" * 2000 + "']\n}", '\x00', 'Table t {\n id int\n}\x00']:
